@@ -19,7 +19,7 @@ mod verif_kani {
         kani::cover!(!is_name(s.as_bytes()));
     }
 
-    //@harness props=C14,C12 kind=bounded tier=quick fns=is_valid_identifier bound="all ASCII strings of length <= 3" budget=300
+    //@harness props=C14,C12 kind=bounded tier=quick fns=is_valid_identifier bound="all ASCII strings of length <= 3" budget=400
     //@ desc="is_valid_identifier(s) ==> s is a Lua Name and not one of the 21 reserved words (so `s = value` parses and denotes the key s)"
     #[kani::proof]
     #[kani::unwind(6)]
@@ -39,7 +39,7 @@ mod verif_kani {
         check(s);
     }
 
-    //@harness props=C14,C12 kind=bounded fns=is_valid_identifier bound="ENUMERATED: the 21 reserved words of Lua 5.1, the empty string, one non-ASCII letter" budget=300
+    //@harness props=C14,C12 kind=bounded fns=is_valid_identifier bound="ENUMERATED: the 21 reserved words of Lua 5.1, the empty string, one non-ASCII letter" budget=400
     //@ desc="every reserved word, the empty string and a non-ASCII letter are rejected (they must be written as [\"key\"])"
     #[kani::proof]
     #[kani::unwind(23)]
